@@ -2,8 +2,8 @@ package main
 
 import (
 	"fmt"
-	"os"
 	"go/types"
+	"os"
 	"path/filepath"
 	"regexp"
 	"sort"
@@ -15,13 +15,13 @@ import (
 )
 
 type OblResult struct {
-	Obl     *Obl
-	Status  string // discharged | refuted | undischarged | cover-ok | cover-vacuous
-	Solve   SolveResult
-	File    string
-	Func    string
-	Model   map[string]string
-	Residual bool // proved only under ¬except of a known finding
+	Obl       *Obl
+	Status    string // discharged | refuted | undischarged | cover-ok | cover-vacuous
+	Solve     SolveResult
+	File      string
+	Func      string
+	Model     map[string]string
+	Residual  bool // proved only under ¬except of a known finding
 	KnownLine string
 	KnownNote string
 	Replay    *ReplayOutcome
@@ -29,25 +29,25 @@ type OblResult struct {
 }
 
 type FuncResult struct {
-	Key      string
-	Err      error // outside the subset / spec error
-	Results  []*OblResult
-	Notes    []string
-	Lemmas   []string
-	Used     []string
-	Inlined  []string
-	Enc      *Enc
-	Millis   int64
+	Key     string
+	Err     error // outside the subset / spec error
+	Results []*OblResult
+	Notes   []string
+	Lemmas  []string
+	Used    []string
+	Inlined []string
+	Enc     *Enc
+	Millis  int64
 }
 
 type VerifyOpts struct {
-	WorkDir   string
-	TimeoutS  int
-	Agree     int
-	Findings  []*Finding
-	OnlyObl   *regexp.Regexp
-	Prop      string
-	NoReplay  bool
+	WorkDir  string
+	TimeoutS int
+	Agree    int
+	Findings []*Finding
+	OnlyObl  *regexp.Regexp
+	Prop     string
+	NoReplay bool
 }
 
 func (P *Program) verifyFunc(key string, opts *VerifyOpts) (res *FuncResult) {
@@ -338,6 +338,7 @@ func (e *Enc) encodeTop(fn *ssa.Function, spec *FuncSpec, caseIdx int) {
 		params = append(params, v)
 	}
 	e.h0 = h0
+	e.setupLocks(spec)
 	fr := e.newFrame(fn, nil, params, h0)
 	fr.isTop = true
 	fr.spec = spec
@@ -537,6 +538,9 @@ func (e *Enc) discharge(o *Obl, fkey string, opts *VerifyOpts) *OblResult {
 	if o.Goal == "true" || o.Guard == "false" {
 		r.Status = "discharged"
 		r.Solve = SolveResult{Status: "unsat", Backend: "govc-trivial"}
+		if o.Kind == "lock" {
+			r.Solve.Backend = "govc-lock"
+		}
 		return r
 	}
 	run := func(tag string, extra []string, relaxed bool, agree int) SolveResult {
@@ -633,8 +637,8 @@ func parseGetValue(out string, watch []WatchTerm) map[string]string {
 }
 
 type sexp struct {
-	atom string
-	list []*sexp
+	atom   string
+	list   []*sexp
 	isList bool
 }
 
